@@ -175,7 +175,27 @@ class SimEnv:
 
     def fire(self, f: Dict[str, Any], rel: str, **kw: Any) -> None:
         f["fired"] = True
-        self.log("fault_fired", kind=f["kind"], path=rel, **kw)
+        fid = next((i for i, g in enumerate(self.faults) if g is f), None)
+        self.log("fault_fired", kind=f["kind"], path=rel, fid=fid, **kw)
+
+    def kill_now(self, rel: str) -> None:
+        """The process dies here: no exception handler, no finally block, no context manager of the system under
+        test runs afterwards, and whatever sits in user-space buffers of open files is lost (what SIGKILL or a
+        power cut does). In a pool worker the old model stays: the failure travels to the parent as an exception."""
+        self.log("killed", path=rel)
+        if self.in_worker is not None:
+            raise SessionKilled()
+        self.emit({"ev": "op_end", "i": self.cur_op, "op": getattr(self, "cur_op_name", "?"), "ok": False,
+                   "exc": "SessionKilled", "killed": True})
+        self.emit({"ev": "session_end", "killed": True, "stats": self.stats})
+        os._exit(KILL_EXIT)
+
+    def fault_seen_in_worker(self, ev: Dict[str, Any]) -> None:
+        """A fault is one event in the world: once it fired in a pool worker it is disarmed in the parent too
+        (the parent's copy of the plan was armed when the worker was forked)."""
+        fid = ev.get("fid")
+        if isinstance(fid, int) and 0 <= fid < len(self.faults):
+            self.faults[fid]["fired"] = True
 
     # -- installation ----------------------------------------------------------------------------
     def sim_time(self) -> float:
@@ -307,6 +327,63 @@ class SimEnv:
 
         os.access = sim_access
 
+        # names of temporary files come from the plan, not from os.urandom (a fault placed on such a path must
+        # find the same name when the plan is executed again)
+        import tempfile
+
+        class _Names:
+            def __init__(self, seed: int) -> None:
+                self.rng = Rng(seed).fork("tempnames")
+
+            def __iter__(self):
+                return self
+
+            def __next__(self) -> str:
+                return "".join("abcdefghijklmnopqrstuvwxyz0123456789_"[self.rng.below(37)] for _ in range(8))
+
+        tempfile._name_sequence = _Names(env.clock_seed)
+        tempfile._get_candidate_names = lambda: tempfile._name_sequence
+
+        # operations on directory entries: every call on a path of the workspace is a logged fault point
+        import shutil
+
+        def wrap_fsop(mod, name):
+            real = getattr(mod, name)
+            self._orig["fsop:" + name] = real
+
+            def sim_fsop(*a, **k):
+                if env.cur_op < 0 or k.get("dir_fd") is not None or k.get("src_dir_fd") is not None or k.get("dst_dir_fd") is not None:
+                    return real(*a, **k)   # relative to a directory handle (inside shutil.rmtree): the outer call is the point
+                rels = [env.rel(x) for x in a[:2] if isinstance(x, (str, bytes, os.PathLike))]
+                rels = [r for r in rels if r is not None]
+                if not rels:
+                    return real(*a, **k)
+                rel = rels[-1]   # the destination of a rename / move, the path of everything else
+                n = env.count_io(rel, "fsop:" + name)
+                env.log("fs_op", fsop=name, path=rel, call=n)
+                f = env._match_fault("fsop_fail", rel, fsop=name, call=n)
+                if f is not None:
+                    env.fire(f, rel, at=name, call=n)
+                    eno = getattr(errno, str(f.get("errno", "EPERM")), errno.EPERM)
+                    raise OSError(eno, os.strerror(eno), rel)
+                f = env._match_fault("kill_before_fsop", rel, fsop=name, call=n)
+                if f is not None:
+                    env.fire(f, rel, at=name, call=n)
+                    env.kill_now(rel)
+                out = real(*a, **k)
+                f = env._match_fault("kill_after_fsop", rel, fsop=name, call=n)
+                if f is not None:
+                    env.fire(f, rel, at=name, call=n)
+                    env.kill_now(rel)
+                return out
+
+            setattr(mod, name, sim_fsop)
+
+        for name in ("replace", "rename", "remove", "unlink", "rmdir", "mkdir", "makedirs"):
+            wrap_fsop(os, name)
+        for name in ("move", "copyfile", "copy", "copy2", "rmtree"):
+            wrap_fsop(shutil, name)
+
     def real_open(self, *a: Any, **k: Any):
         return self._orig.get("open", builtins.open)(*a, **k)
 
@@ -330,7 +407,8 @@ class SimEnv:
         f = self._match_fault("open_eacces", rel, open_k=open_k, cls=cls)
         if f is not None:
             self.fire(f, rel, at="open", open_k=open_k)
-            raise PermissionError(errno.EACCES, os.strerror(errno.EACCES), os.fspath(file))
+            eno = getattr(errno, str(f.get("errno", "EACCES")), errno.EACCES)
+            raise OSError(eno, os.strerror(eno), os.fspath(file))
         fh = real_open(file, mode, *a, **k)
         self.log("file_open", path=rel, mode=cls, open_k=open_k)
         return _FileProxy(self, fh, rel, cls, open_k)
@@ -364,7 +442,8 @@ class _FileProxy:
         f = env._match_fault("read_eio", rel, open_k=self._open_k, call=n)
         if f is not None:
             env.fire(f, rel, at="read", call=n, open_k=self._open_k)
-            raise OSError(errno.EIO, os.strerror(errno.EIO))
+            eno = getattr(errno, str(f.get("errno", "EIO")), errno.EIO)
+            raise OSError(eno, os.strerror(eno))
 
     def read(self, *a):
         self._before_read()
@@ -422,8 +501,7 @@ class _FileProxy:
                 env.fire(f, rel, at="write", call=n, kept=len(part))
                 raise OSError(errno.ENOSPC, os.strerror(errno.ENOSPC))
             env.fire(f, rel, at="write", call=n, kept=len(part))
-            env.log("killed", path=rel)
-            raise SessionKilled()
+            env.kill_now(rel)
         object.__setattr__(self, "_bytes", self._bytes + len(data))
         return self._fh.write(data)
 
